@@ -45,6 +45,13 @@ inductive V where
                                                -- called, how often the listeners were notified, the exception a storage
                                                -- call ended in
   | decoded (d : Serialize.Decoded)            -- the policy `Policy.__init__` builds from decoded properties
+  | bytes (b : Backends.Bytes)                 -- a serialized policy as Redis holds it
+  | rworld (sr : Backends.Ser) (h : Backends.RHash) (raised : Option Store.Out)
+                                               -- what the methods of the Redis storage act on: the serializer, the hash
+  | mworld (c : Backends.Coll) (raised : Option Store.Out)
+                                               -- what the methods of the MongoDB storage act on: the collection (a document
+                                               -- stands for the policy it encodes)
+  | mdoc (u : Store.Uid) (p : Store.Pol)       -- a document prepared from / found for a policy
   | pager (ga : Int → Int → Option Store.St)   -- any storage, seen through its `get_all(limit, offset)` (`none`: it raises)
   | alog (audits : List AuditRec) (decisions : List Bool)
                                                -- what the guard writes: the audit records and the decision-log records
@@ -77,6 +84,10 @@ def truth : V → Bool
   | .eworld _ _ _ _ _ => true
   | .alog _ _ => true
   | .pager _ => true
+  | .mworld _ _ => true
+  | .mdoc _ _ => true
+  | .bytes b => !b.isEmpty
+  | .rworld _ _ _ => true
   | .decoded _ => true
 
 /-- the answer of `satisfied` as the checkers see it: its truthiness, or the exception -/
@@ -751,6 +762,114 @@ def fmt1M (pre post : String) (directive : Char) (x : M) : M :=
     | 's', .py w => .ok (.py (.str (pre.toList ++ strOf w ++ post.toList)))
     | 'd', .py (.int n) => if 0 ≤ n then .ok (.py (.str (pre.toList ++ natDigits n.toNat ++ post.toList))) else raiseM
     | _, _ => raiseM
+
+/-! ### the Redis storage: client calls as effects on the hash, the serializer as part of the world -/
+
+/-- `self.sr.serialize(policy)`: the bytes, or whatever the serializer raises -/
+def serializeM (pol w : M) : M :=
+  bindM pol fun p => bindM w fun w => match p, w with
+    | .polv _ c _, .rworld sr _ Option.none => (match sr.ser c with | some b => .ok (.bytes b) | Option.none => raiseM)
+    | _, _ => raiseM
+
+/-- `self.sr.deserialize(data)` -/
+def deserializeM (data w : M) : M :=
+  bindM data fun d => bindM w fun w => match d, w with
+    | .bytes b, .rworld sr _ Option.none => .ok (.polv [] (sr.deser b) true)
+    | _, _ => raiseM
+
+/-- `self.client.hsetnx(collection, key, value)`: sets the field only if it does not exist; answers 1 / 0 -/
+def hsetnxM (key val w : M) (k : V → V → M) : M :=
+  bindM key fun ky => bindM val fun v => bindM w fun w => match ky, v, w with
+    | .py (.str u), .bytes b, .rworld sr h Option.none =>
+      if (Backends.dictGet u h).isSome then k (.py (.int 0)) (.rworld sr h Option.none)
+      else k (.py (.int 1)) (.rworld sr (h ++ [(u, b)]) Option.none)
+    | _, _, _ => raiseM
+
+/-- `self.client.hget(collection, key)` -/
+def hgetM (key w : M) (k : V → V → M) : M :=
+  bindM key fun ky => bindM w fun w => match ky, w with
+    | .py (.str u), .rworld sr h Option.none =>
+      (match Backends.dictGet u h with
+       | some b => k (.bytes b) (.rworld sr h Option.none)
+       | Option.none => k (.py .none) (.rworld sr h Option.none))
+    | _, _ => raiseM
+
+/-- the Lua updater script (`HEXISTS`, then `HSET` only when the field exists): answers what `HSET` answers (0: an existing field
+was overwritten) or 0 -/
+def scriptUpdateM (key val w : M) (k : V → V → M) : M :=
+  bindM key fun ky => bindM val fun v => bindM w fun w => match ky, v, w with
+    | .py (.str u), .bytes b, .rworld sr h Option.none =>
+      if (Backends.dictGet u h).isSome then k (.py (.int 0)) (.rworld sr (Backends.dictSet u b h) Option.none)
+      else k (.py (.int 0)) (.rworld sr h Option.none)
+    | _, _, _ => raiseM
+
+/-- `self.client.hdel(collection, key)`: the number of fields removed -/
+def hdelM (key w : M) (k : V → V → M) : M :=
+  bindM key fun ky => bindM w fun w => match ky, w with
+    | .py (.str u), .rworld sr h Option.none =>
+      k (.py (.int (if (Backends.dictGet u h).isSome then 1 else 0))) (.rworld sr (Backends.dictDel u h) Option.none)
+    | _, _ => raiseM
+
+/-- `raise X` in a method of the Redis storage: the method ends, the world records the exception
+(`PolicyExistsError`; anything re-raised from a handler reads as "the storage refused") -/
+def raiseRedisM (exc : String) (w : M) : M :=
+  bindM w fun w => match w with
+    | .rworld sr h Option.none =>
+      .ok (.rworld sr h (some (if exc == "PolicyExistsError" then .existsErr else .rejected)))
+    | _ => raiseM
+
+/-- `try: BODY except Exception: HANDLER` where the handler raises: an exception in the body (before any effect: the arguments of a
+client call are evaluated first) is answered by the handler on the world as it stood -/
+def tryElseM (body handler : M) : M := match body with | .error _ => handler | r => r
+
+/-! ### the MongoDB storage: collection calls as effects -/
+
+/-- `self.__prepare_doc(policy)`: the document, or whatever the conversion raises (a policy the backend cannot store) -/
+def prepareDocM (pol : M) : M :=
+  bindM pol fun p => match p with
+    | .polv u c ok => if ok then .ok (.mdoc u c) else raiseM
+    | _ => raiseM
+
+/-- `self.__prepare_from_doc(doc)` -/
+def fromDocM (doc : M) : M :=
+  bindM doc fun d => match d with
+    | .mdoc u c => .ok (.polv u c true)
+    | _ => raiseM
+
+/-- `try: self.collection.insert_one(doc)  except DuplicateKeyError: HANDLER`: inserted and on, or the handler -/
+def insertOneM (doc w : M) (k : V → M) (dup : V → M) : M :=
+  bindM doc fun d => bindM w fun w => match d, w with
+    | .mdoc u c, .mworld coll Option.none =>
+      if (Backends.dictGet u coll).isSome then dup (.mworld coll Option.none) else k (.mworld (coll ++ [(u, c)]) Option.none)
+    | _, _ => raiseM
+
+/-- `self.collection.find_one(uid)` -/
+def findOneM (key w : M) (k : V → V → M) : M :=
+  bindM key fun ky => bindM w fun w => match ky, w with
+    | .py (.str u), .mworld coll Option.none =>
+      (match Backends.dictGet u coll with
+       | some c => k (.mdoc u c) (.mworld coll Option.none)
+       | Option.none => k (.py .none) (.mworld coll Option.none))
+    | _, _ => raiseM
+
+/-- `self.collection.update_one({'_id': uid}, {'$set': doc}, upsert=False)` -/
+def updateOneM (key doc w : M) (k : V → M) : M :=
+  bindM key fun ky => bindM doc fun d => bindM w fun w => match ky, d, w with
+    | .py (.str u), .mdoc _ c, .mworld coll Option.none =>
+      if (Backends.dictGet u coll).isSome then k (.mworld (Backends.dictSet u c coll) Option.none) else k (.mworld coll Option.none)
+    | _, _, _ => raiseM
+
+/-- `self.collection.delete_one({'_id': uid})` -/
+def deleteOneM (key w : M) (k : V → M) : M :=
+  bindM key fun ky => bindM w fun w => match ky, w with
+    | .py (.str u), .mworld coll Option.none => k (.mworld (Backends.dictDel u coll) Option.none)
+    | _, _ => raiseM
+
+/-- `raise PolicyExistsError(...)` in a method of the MongoDB storage -/
+def raiseMongoM (exc : String) (w : M) : M :=
+  bindM w fun w => match w with
+    | .mworld coll Option.none => if exc == "PolicyExistsError" then .ok (.mworld coll (some .existsErr)) else raiseM
+    | _ => raiseM
 
 /-! ### `Policy.from_json`: the decoded properties as a local dictionary -/
 
